@@ -1,7 +1,7 @@
 (* Extract.v -- extraction of the executable models (ExtrOcamlBasic only). *)
 From Coq Require Import List ZArith Bool.
-From SC Require Import Base Cfg Comb ModStr ModMem ModTok ModTs ModSearch ModConv Dispatch HandlerModel FmtScan FmtEngine.
+From SC Require Import Base Cfg Comb ModStr ModMem ModTok ModTs ModSearch ModConv ModSort Dispatch HandlerModel FmtScan FmtEngine.
 Require Extraction.
 Require Import ExtrOcamlBasic.
 Extraction Blacklist String List Nat.
-Extraction "model.ml" run_call cfg_default cfg_noslack mkCfg run_hist h_init delegating_entry engine_walk has_n prescan_accepts vsnprintf_s_m vsprintf_s_m stream_m.
+Extraction "model.ml" run_call cfg_default cfg_noslack mkCfg run_hist h_init delegating_entry engine_walk has_n prescan_accepts vsnprintf_s_m vsprintf_s_m stream_m smoothsort_keys.
